@@ -3,8 +3,10 @@
 emu-sv half (emu_sv/custom_callback_implementations.py, RydbergHamiltonian.expect, RydbergLindbladian.expect):
 Lean theorems (EmuVerif.Props.C13 over Model.SvObs) + exact correspondence on dyadic states / parameters.
 emu-mps half (emu_mps/custom_callback_implementations.py, emu_mps/observables.py, fill_results normalisation,
-dark-atom padding): always-on oracle — every reported value on arbitrary unnormalised, non-canonical MPS of 2-8 atoms
-against the dense definition on the contracted, normalised state; physical ranges. Validated, not proved.
+dark-atom padding): Lean theorems (EmuVerif.Props.C13Mps over Model.MpsObs / Model.Tensor, under the canonical-form
+hypothesis) + the correspondence of harness/props/c13_mps.py, and the always-on oracle — every reported value on
+arbitrary unnormalised, non-canonical MPS of 2-8 atoms against the dense definition on the contracted, normalised
+state; physical ranges (entropy and truncating products: validated only).
 """
 from __future__ import annotations
 
@@ -14,26 +16,43 @@ import math
 from harness.common import Driver, LeanError, Report, lean_stage, seeded
 
 REGISTRY = dict(
-    text=("PARTIAL (full for state vectors and density matrices; MPS observables validated against dense definitions, their "
-          "algebra is C11). Lean 4 theorems for every qubit number, every state and all Hamiltonian parameters: the emu-sv "
+    text=("PARTIAL (full for state vectors and density matrices; for MPS full UNDER the canonical-form hypothesis that C10's "
+          "orthogonalize contract supplies, entropy and truncating products validated only). Lean 4 theorems for every qubit "
+          "number, every state and all Hamiltonian parameters: the emu-sv "
           "occupation (sum of |psi_s|^2 over the sub-tree 'bit k set') is <psi|n_k psi> with the dense n_k = I x..x n x..x I; "
           "the correlation entry (i<j) is <psi|n_i n_j psi>, the diagonal is the occupation = <psi|n_i n_i psi>, the matrix is "
           "symmetric; the density-matrix versions (diagonal sub-sums) are tr(n_k rho), tr(n_i n_j rho), and on |psi><psi| they are "
           "the state-vector values; energy = <psi|H psi>, second moment <H psi|H psi> with the dense H of C06, tr(H rho), "
           "tr(H H rho) for density matrices; values are real; for a normalised state occupations and correlations lie in [0,1] "
           "and the variance <H psi|H psi> - <psi|H psi>^2 >= 0 (Cauchy-Schwarz proved). Fidelity/expectation are the C12 "
-          "objects. Not proved: emu-mps occupation/correlation/energy/second moment/variance/entanglement entropy, fill_results "
-          "normalisation and dark-atom padding (oracle vs dense contraction, ranges incl. entropy in [0, log d^k]); "
-          "density-matrix variance >= 0 (needs positivity of rho)."),
-    note=("Trusted: Lean kernel + propext/Classical.choice/Quot.sound; Mathlib; hand-written Model.SvObs tied by exact "
-          "correspondence (vector_norm**2 compared at 1e-12); the MPS half is differential testing only (1e-9 relative), "
-          "labelled as such."),
-    technique="Lean 4 proof (induction on the qubit tree, Cauchy-Schwarz) + exact correspondence + dense oracle for MPS",
+          "objects. emu-mps (Props/C13Mps.lean, on the amplitude semantics of C11; every site count, bond-dimension sequence and "
+          "physical dimension; hypotheses stated on the factor matrices: factors left of the recorded centre are left-isometries, "
+          "right of it right-isometries, every r returned by torch.linalg.qr satisfies r^dagger r = m^dagger m): MPS.expect_batch "
+          "with the loops range(c, n) and range(c-1, -1, -1) as written returns <psi|O_i|psi> for EVERY site i and every centre c "
+          "incl. 0 and n-1 (also with no recorded centre, after orthogonalize(0)); qubit_occupation_mps_impl = "
+          "sum_s [s_i=1]|amp s|^2 = <psi|n_i|psi>; MPS.norm()^2 = <psi|psi>; get_correlation_matrix: entry [i,i+k] = <psi|O_i O_{i+k}|psi> "
+          "for the factors canonical at i, the diagonal is <O_i> as implemented (finding T2; = <n_i n_i> for the projector n), the "
+          "whole symmetric table for n from the snapshots after each orthogonalize(left); energy = MPO.expect = "
+          "sum conj(amp s)<s|H|t>amp t and second moment / variance with H@H = zip_right BEFORE truncation (qr contract q r = m); "
+          "fill_results: observables of (1/norm)*state are |lambda|^2 x those of the state, the scaled state has norm 1, scaling "
+          "keeps the canonical form; dark-atom padding: a dark atom has occupation 0 and zero correlations, the k-th good atom the "
+          "values of site k of the reduced state, norm and energy unchanged; values are real and occupation, <n_i n_j> lie in [0,1] "
+          "for a normalised state. Validated only (dense oracle 1e-9, not proved): entanglement entropy (svdvals), the truncation "
+          "inside hamiltonian @ hamiltonian (C10), that the emu-mps Hamiltonian MPO read in the Tensor model has the dense H of "
+          "C05 as operator semantics (no bridge lemma between Model/HamMPO and Model/Tensor), that orthogonalize establishes the "
+          "canonical form (C10; checked numerically on every tape case); density-matrix variance >= 0 (needs positivity of rho)."),
+    note=("Trusted: Lean kernel + propext/Classical.choice/Quot.sound; Mathlib; hand-written Model.SvObs / Model.MpsObs tied by exact "
+          "correspondence (vector_norm**2 compared at 1e-12; MPS: Gaussian-integer states in exact canonical form with an exact "
+          "isometric qr, plus recorded real-qr tapes at 1e-10); entropy and truncation are differential testing only (1e-9 "
+          "relative), labelled as such."),
+    technique="Lean 4 proof (induction on the qubit tree / over MPS sites, transfer-matrix invariants, Cauchy-Schwarz) + exact correspondence + dense oracle",
     design_ref="DESIGN.md §5 C13",
 )
 
 PROP_MODULE = "EmuVerif.Props.C13"
 AUDIT = "Audit/C13.lean"
+MPS_MODULE = "EmuVerif.Props.C13Mps"      # the emu-mps half (Model.MpsObs / Model.Tensor)
+MPS_AUDIT = "Audit/C13Mps.lean"
 RTOL_TAPE = 1e-12
 RTOL_ORACLE = 1e-9
 STATE = {"compat": False}
@@ -634,13 +653,17 @@ def check(rep: Report, tier: str, seed: int) -> None:
                 "every site (set by orthogonalize, apply, get_correlation_matrix); 8 callback orders per shared fill_results-style state; real "
                 "emu-mps runs of 3-4 atoms with [CorrelationMatrix, Occupation] (and two more lists) vs [Occupation] alone")
     rep.assumptions = [
-        "emu-mps observables, fill_results normalisation, dark-atom padding and entanglement entropy are validated against dense "
-        "definitions (1e-9), not proved",
+        "emu-mps: entanglement entropy and the truncation inside hamiltonian @ hamiltonian are validated against dense definitions "
+        "(1e-9), not proved; that the emu-mps Hamiltonian MPO has the dense H as operator semantics is validated (energy oracle)",
         "torch.linalg.vector_norm(x)**2 is compared with the exact sum of squares at 1e-12 relative",
         "binary64 rounding outside the theorems",
     ]
     t0 = time.time()
     lean_stage(rep, PROP_MODULE, AUDIT, thorough=(tier == "thorough"))
+    ob, cmd = list(rep.obligations), rep.checker_cmd
+    lean_stage(rep, MPS_MODULE, MPS_AUDIT, thorough=(tier == "thorough"))
+    rep.obligations = ob + [o for o in rep.obligations if o not in ob]
+    rep.checker_cmd = cmd + " ; " + rep.checker_cmd
     rep.extra["t_lean_stage_s"] = round(time.time() - t0, 1)
     correspondence(rep, seeded(seed * 7919 + 13), tier)
     oracle_sv(rep, seeded(seed * 104729 + 13), 24 if tier == "quick" else 300)
@@ -648,6 +671,10 @@ def check(rep: Report, tier: str, seed: int) -> None:
     oracle_mps_centres(rep, seeded(seed * 15485863 + 13), 6 if tier == "quick" else 120)
     oracle_mps_order(rep, seeded(seed * 32452843 + 13), 6 if tier == "quick" else 100)
     oracle_mps_runs(rep, seeded(seed * 49979687 + 13), 2 if tier == "quick" else 20)
+    t1 = time.time()
+    from harness.props import c13_mps
+    c13_mps.run(rep, tier, seed, Driver())
+    rep.extra["t_mps_correspondence_s"] = round(time.time() - t1, 1)
     rep.extra["t_total_s"] = round(time.time() - t0, 1)
     if rep.broken and not rep.failing:
         search(rep, seed, 100 if tier == "quick" else 1000)
@@ -697,7 +724,11 @@ def replay(rep: Report, path: str) -> int:
             occ = mcb.qubit_occupation_mps_impl(None, config=None, state=st, hamiltonian=None).numpy()
             nk = [tio.np_embed(n_well, k, tio.NOP) for k in range(n_well)]
             err = abs(occ - np.array([np.vdot(psi, nk[k] @ psi).real for k in range(n_well)])).max()
-            print(f"replay: emu-mps occupation (well-prepared part) n={n_well} err {err:.3e}", "FAILS" if err > RTOL_ORACLE else "holds now")
+            cor = mcb.correlation_matrix_mps_impl(None, config=None, state=st, hamiltonian=None).numpy()
+            err_c = abs(cor - np.array([[np.vdot(psi, nk[a] @ (nk[b] @ psi)).real for b in range(n_well)] for a in range(n_well)])).max()
+            err = max(err, err_c)
+            print(f"replay: emu-mps occupation / correlation (well-prepared part) n={n_well} err {err:.3e}",
+                  "FAILS" if err > RTOL_ORACLE else "holds now")
             bad += err > RTOL_ORACLE
         elif d.get("kind") == "mps-centre":
             dd, bonds = d["d"], d["bonds"]
